@@ -159,6 +159,10 @@ def regenerate(ctx=None):
         tmp = d / "Consts.lean.tmp"
         tmp.write_text(txt)
         tmp.replace(f)
+    try:    # C22 translation validation: the dispatcher's bytecode as a Lean term
+        regenerate_programs()
+    except Exception:
+        pass
     return txt
 
 
@@ -434,6 +438,43 @@ def _arraymap_literals():
         raise ValueError("unexpected ArrayMap.collect rounding")
     return {"arraymap_fmtsizes": sizes, "arraymap_fmtsize_x": int(eb.fmtsize("x")),
             "arraymap_FIXED_BASE": int(eb.Expression.FIXED_BASE), "arraymap_align": a}
+
+
+def render_programs():
+    """C22 translation validation: the real dispatcher bytecode (EtherXDP assembled from /repo's working tree by
+    progs.ether_xdp) as a Lean instruction list plus the map geometry the proof refers to"""
+    head = ["/- REGENERATED from /repo on every run by harness/vh/extract.py (render_programs); do not edit. -/",
+            "import Ebv.Model.Ebpf", "namespace Ebv.Programs", "open Ebv.Ebpf"]
+    try:
+        from . import progs, interp
+        P = progs.ether_xdp()
+
+        def imm(i):     # the fd the fake kernel hands out depends on how many maps the process made before: canonical 40
+            pseudo = interp.opval(i.opcode) == 0x18 and int(i.src) == 1 and int(i.imm) == P["var_fd"]
+            return 40 if pseudo else int(i.imm)
+        rows = [f"  \u27e8{interp.opval(i.opcode)}, {int(i.dst)}, {int(i.src)}, {int(i.off)}, {imm(i)}\u27e9" for i in P["insns"]]
+        geo = {"etherXdp_varFd": 40, "etherXdp_varSize": P["var_size"], "etherXdp_offCounters": P["off_counters"],
+               "etherXdp_offDropcounter": P["off_dropcounter"], "etherXdp_programsFd": P["programs_fd"]}
+        body = ["def etherXdp : List Insn := [", ",\n".join(rows) + "]"]
+    except Exception:
+        geo = {"etherXdp_varFd": 0, "etherXdp_varSize": 0, "etherXdp_offCounters": 0, "etherXdp_offDropcounter": 0,
+               "etherXdp_programsFd": 0}
+        body = ["def etherXdp : List Insn := []"]
+    body += [f"def {k} : {'Int' if k.endswith('Fd') else 'Nat'} := {int(v)}" for k, v in geo.items()]
+    return "\n".join(head + body + ["end Ebv.Programs"]) + "\n"
+
+
+def regenerate_programs():
+    """write lean/Ebv/Generated/Programs.lean, only when its content changes (keeps lake's build cache valid)"""
+    txt = render_programs()
+    d = core.LEAN / "Ebv" / "Generated"
+    d.mkdir(parents=True, exist_ok=True)
+    f = d / "Programs.lean"
+    if not f.exists() or f.read_text() != txt:
+        tmp = d / "Programs.lean.tmp"
+        tmp.write_text(txt)
+        tmp.replace(f)
+    return txt
 
 
 if __name__ == "__main__":      # keep this block LAST: helpers appended above must be defined first
